@@ -556,6 +556,13 @@ func init() {
 	reg(&propDef{id: "C11", level: "exploration", crashIsViol: false,
 		batches: []batch{{name: "flowfaults", quick: 2600, thorough: 100000}},
 		rule:    "each evaluation is one simulated transfer in which, after the ACT has been written towards the server, one fault is injected at a tape-chosen message: a direction (or both) goes silent, a link closes or starts failing writes, a destination write fails (optionally after a short write), a source read fails, the source file shrinks under the reader, or one process is stalled for T/2, 1.5T or 3T; non-trivial = the fault fired and termination, reports, fail lines and the goroutine-leak monitor were all evaluated; distinct = distinct (configuration + fault kind + hop, schedule-trace hash, tape hash)"})
+	reg(&propDef{id: "C09", level: "exploration", crashIsViol: false,
+		batches: []batch{{name: "names", params: map[string]string{"mode": "system"}, quick: 1600, thorough: 60000},
+			{name: "archive", params: map[string]string{"mode": "archive"}, quick: 600, thorough: 20000}},
+		rule: "batch names: one simulated transfer between the real sender and the real receiver in which a link rewriter replaces the name in one NAME message (plain name, or the JSON path list in directory / protocol >= 3 mode) by a hostile one ('..' in any position, embedded '/', absolute path, empty element, over-long, '\\'), x -y x -d x protocols 1-4 x both receiving roles; batch archive: the real archive writer fed an entry header with a hostile path list; oracle: snapshot of the destination's parent (canary file, sibling directory) before/after - nothing outside the destination created, modified or removed; non-trivial = a hostile name was injected and the snapshot compared; distinct = distinct (configuration + injected name, schedule-trace hash, tape hash)"})
+	reg(&propDef{id: "C12", level: "exploration", crashIsViol: true, memKB: 8 << 20,
+		batches: []batch{{name: "fields", quick: 3000, thorough: 120000}},
+		rule:    "each evaluation is one simulated transfer in which a link rewriter replaces the payload of 1-3 tape-chosen protocol lines sent to the attacked role (server or client) by boundary values: numbers (-1, 0, +-1 of the expected, 2^31, 2^62, 2^63-1, non-numeric, oversized), broken base64/zlib, truncated or wrongly typed JSON, hostile known fields; with and without a progress display, terminal widths 6-80; oracles: no panic/fatal error in any goroutine (a crash of the worker process is attributed to the run and re-executed), allocation during the run <= 64 MiB + 16 x bytes moved, both roles end, no percentage outside 0..100 on the terminal, and a transparency probe in both directions passes afterwards; non-trivial = an edit fired and all oracles ran; distinct = distinct (configuration + attacked role, schedule-trace hash, tape hash)"})
 	reg(&propDef{id: "C10", level: "exploration", crashIsViol: false,
 		batches: []batch{{name: "stops", quick: 2400, thorough: 90000}},
 		rule:    "each evaluation is one simulated transfer stopped at a tape-chosen message after the handshake by one of: user Ctrl-C plus prompt keys through the real promptui prompt (keep / delete), the public StopTransferringFiles(bool), SIGINT or SIGTERM delivered to the server main; non-trivial = the stop fired and termination bound, reports, delete/keep semantics and bystander files were all evaluated; distinct = distinct (configuration + stop kind, schedule-trace hash, tape hash)"})
